@@ -492,11 +492,22 @@ type Stats struct {
 	WallS         float64        `json:"wall_s"`
 	Extra         map[string]int `json:"extra,omitempty"`
 
-	mu      sync.Mutex
-	ntSet   map[string]bool
-	start   time.Time
-	failing bool
-	lblSeen map[string]bool
+	mu        sync.Mutex
+	ntSet     map[string]bool
+	start     time.Time
+	failing   bool
+	lblSeen   map[string]bool
+	fuzz      bool // driven by go's native fuzzing: several worker processes, each with its own statistics file, flushed as it goes
+	lastFlush time.Time
+}
+
+// Fuzz marks the statistics as belonging to one process of a native fuzzing campaign (go test -fuzz): the statistics and
+// failing-scenario files carry the process ID, and the statistics are written every few seconds because workers are killed
+// without notice when the campaign ends.
+func (s *Stats) Fuzz() *Stats {
+	s.fuzz = true
+	s.lastFlush = time.Now()
+	return s
 }
 
 func NewStats(property, part, rule string) *Stats {
@@ -538,6 +549,9 @@ func (s *Stats) Judge(t TB, scn interface{}, v Verdict) {
 		s.Labels[l]++
 	}
 	if v.Status == "ok" && v.Nontrivial {
+		s.Extra["nontrivial_evaluations"]++
+	}
+	if v.Status == "ok" && v.Nontrivial && (!s.fuzz || len(s.ntSet) < 20000) {
 		h := hashOf(b)
 		if !s.ntSet[h] {
 			s.ntSet[h] = true
@@ -559,7 +573,14 @@ func (s *Stats) Judge(t TB, scn interface{}, v Verdict) {
 	}
 	switch v.Status {
 	case "ok":
+		due := s.fuzz && time.Since(s.lastFlush) > 3*time.Second
+		if due {
+			s.lastFlush = time.Now()
+		}
 		s.mu.Unlock()
+		if due {
+			s.Flush()
+		}
 		return
 	case "inconclusive":
 		s.Inconclusive++
@@ -581,6 +602,9 @@ func (s *Stats) Judge(t TB, scn interface{}, v Verdict) {
 	s.FailVerdict = &vv
 	if dir := os.Getenv("VX_FAILDIR"); dir != "" {
 		p := fmt.Sprintf("%s/%s-%s-seed%d.json", dir, s.Property, s.Part, s.Seed)
+		if s.fuzz {
+			p = fmt.Sprintf("%s/%s-%s-fuzz-pid%d.json", dir, s.Property, s.Part, os.Getpid())
+		}
 		_ = os.WriteFile(p, b, 0o644)
 		s.FailFile = p
 	}
@@ -611,6 +635,13 @@ func (s *Stats) Flush() {
 		return
 	}
 	b, _ := json.MarshalIndent(s, "", " ")
+	if s.fuzz {
+		tmp := fmt.Sprintf("%s.%s.pid%d.tmp", p, s.Part, os.Getpid())
+		if os.WriteFile(tmp, b, 0o644) == nil {
+			_ = os.Rename(tmp, fmt.Sprintf("%s.%s.pid%d.json", p, s.Part, os.Getpid()))
+		}
+		return
+	}
 	_ = os.WriteFile(p+"."+s.Part+".json", b, 0o644)
 }
 
